@@ -39,6 +39,13 @@ def runQueue (r : Report) (s : Section) : Report := Id.run do
   let mut q := Queue.new size
   let mut sp : Spec.Fifo := []
   let mut r := r
+  if kvInt s.cfg "size" 0 < 0 then
+    -- `NewQueue(negative)`: `make([]any, size)` panics, no queue exists (outside the property: size ≥ 1)
+    r := r.addCover "q-new-negative-panics"
+    for l in s.lines do
+      r := { r with ops := r.ops + 1 }
+      if joinSp l.obs ≠ "PANIC-new" then r := r.mismatch s.idx l.idx "PANIC-new" (joinSp l.obs)
+    return r
   for l in s.lines do
     r := { r with ops := r.ops + 1 }
     match l.op with
